@@ -308,3 +308,273 @@ def header_context(hdr):
     if base == 'IntoExisting':
         return ('ref_into_existing' if self_ref else 'owned_into_existing', fallible, arg)
     return None
+
+
+# ---------------------------------------------------------------------------------------------------
+# C01 (and the struct part of C07): the designated mapping of a struct conversion, from the README rules
+# ---------------------------------------------------------------------------------------------------
+def sem_text(e):
+    """canonical flat text of a SEM expression node"""
+    if not isinstance(e, list):
+        return sval(e)
+    h = e[0]
+    if h == 'raw':
+        return sval(e[1])
+    if h == 'struct':
+        parts = []
+        rest = ''
+        for x in e[2:]:
+            if x[0] == 'f':
+                parts.append('%s:%s' % (sval(x[1]), sem_text(x[2])))
+            elif x[0] == 'rest':
+                rest = '..' + sem_text(x[1])
+        return '%s{%s}' % (sval(e[1]), ','.join(parts + ([rest] if rest else [])))
+    if h == 'call':
+        return '%s(%s)' % (sval(e[1]), ','.join(sem_text(x) for x in e[2:]))
+    if h == 'tuple':
+        return '(%s)' % ','.join(sem_text(x) for x in e[1:])
+    if h == 'paren':
+        return '(%s)' % sem_text(e[1])
+    if h == 'try':
+        return sem_text(e[1]) + '?'
+    if h == 'assign':
+        return '%s=%s' % (sval(e[1]), sem_text(e[2]))
+    if h == 'match':
+        return 'match %s{%s}' % (sval(e[1]), ','.join('%s=>%s' % (sval(a[1]), sem_text(a[-1])) for a in e[2:]))
+    if h == 'block':
+        return '{%s}' % ';'.join(sem_text(x[1]) if x[0] in ('stmt', 'tail') else repr(x) for x in e[1:])
+    return repr(e)
+
+
+def nsp(s):
+    return re.sub(r'\s+', '', s)
+
+
+def subst_text(expr, tilde, at):
+    """textual @ / ~ substitution on expressions that contain the characters only as markers"""
+    return nsp(expr.replace('~', tilde).replace('@', at))
+
+
+def shape_of_counterpart(cp, hint, own_shape):
+    if cp.startswith('('):
+        return 'tuple'
+    if hint == 'as {}':
+        return 'named'
+    if hint == 'as ()':
+        return 'tuple'
+    if hint == 'as Unit':
+        return 'unit'
+    return 'named' if own_shape == 'named' else 'tuple'
+
+
+def member_winner(attrs, kind, fallible, cp):
+    """like winner(), with as_type counted as an infallible instruction of every kind"""
+    for ded_pass in (True, False):
+        for i, a in enumerate(attrs):
+            if a.name in GHOST_KINDS and kind in GHOST_KINDS[a.name]:
+                if (ded_pass and a.ded is not None and norm_ty(a.ded) == cp) or (not ded_pass and a.ded is None):
+                    return i
+    for (k, f) in levels(kind, fallible):
+        for ded_pass in (True, False):
+            for i, a in enumerate(attrs):
+                ks = instr_kinds(a.name) if a.name in gen.MEMBER_MAP_NAMES else ({(x, False) for x in KINDS} if a.name == 'as_type' else set())
+                if (k, f) in ks:
+                    if (ded_pass and a.ded is not None and norm_ty(a.ded) == cp) or (not ded_pass and a.ded is None):
+                        return i
+    return None
+
+
+def ghosts_entries(item, kind, cp):
+    """entries (name, expr) of the struct-level #[ghosts] instruction applicable to the conversion"""
+    owned = kind in ('owned_into', 'from_owned', 'owned_into_existing')
+    cands = [a for a in item.attrs if isinstance(a, gen.Attr) and a.name in ('ghosts', 'ghosts_owned', 'ghosts_ref')
+             and (a.name == 'ghosts' or (a.name == 'ghosts_owned') == owned)]
+    pick = None
+    for a in cands:
+        if a.ded is not None and norm_ty(a.ded) == cp:
+            pick = a
+            break
+    if pick is None:
+        for a in cands:
+            if a.ded is None:
+                pick = a
+                break
+    if pick is None:
+        return []
+    out = []
+    for ent in re.findall(r'([\w.@]+)\s*:\s*\{([^{}]*)\}', pick.args):
+        out.append((ent[0], ent[1].strip()))
+    return out
+
+
+class OutOfScope(Exception):
+    pass
+
+
+def expected_struct_meaning(item, kind, fallible, cp, hint):
+    """the designated mapping (README rules).  raises OutOfScope for cells the statement does not settle"""
+    own_shape = item.shape
+    dshape = shape_of_counterpart(cp, hint, own_shape)
+    fields = item.members
+    src = 'value' if kind.startswith('from') else 'self'
+    is_from = kind.startswith('from')
+    def own(j, f):
+        return f.name if f.name is not None else str(j)
+    upd = None
+    for a in item.attrs:
+        if isinstance(a, gen.Attr) and a.name in gen.TRAIT_NAMES and getattr(a, 'cp', None) is not None and norm_ty(a.cp) == cp \
+                and (kind, fallible) in set(gen.kinds_of(a.name)):
+            m = re.search(r'\.\.(.*)$', a.params or '')
+            if m:
+                upd = m.group(1).strip()
+                if upd.startswith('{') and upd.endswith('}'):
+                    upd = upd[1:-1]
+    if is_from:
+        if own_shape == 'unit':
+            return ('unit',)
+        named_self = own_shape == 'named'
+        src_named = dshape == 'named'
+        vals = []
+        skipped_before = False
+        for j, f in enumerate(fields):
+            w = member_winner(f.attrs, kind, fallible, cp)
+            a = f.attrs[w] if w is not None else None
+            if a is not None and a.name in GHOST_KINDS:
+                if a.default is None:
+                    skipped_before = True
+                    continue          # absent: supplied by ..update (validation demands it)
+                vals.append((own(j, f), subst_text(a.default, '<no-tilde>', src)))
+                skipped_before = True
+                continue
+            member = getattr(a, 'member', None) if a is not None else None
+            expr = getattr(a, 'expr', None) if a is not None else None
+            cast = getattr(a, 'cast', None) if a is not None else None
+            if member is not None:
+                srcf = str(member)
+            elif src_named:
+                if f.name is None:
+                    if expr is not None and '~' not in expr:
+                        srcf = None
+                    else:
+                        raise OutOfScope('tuple field read from a named counterpart without a member name')
+                else:
+                    srcf = f.name
+            else:
+                if dshape == 'unit':
+                    if expr is not None and '~' not in expr:
+                        srcf = None
+                    else:
+                        raise OutOfScope('field read from a unit counterpart')
+                else:
+                    if skipped_before:
+                        raise OutOfScope('positional read after a skipped field (the statement\'s "same position" is ambiguous)')
+                    srcf = str(j)
+            path = '%s.%s' % (src, srcf)
+            if expr is not None:
+                v = subst_text(expr, path, src)
+            elif cast is not None:
+                v = nsp('%s as %s' % (path, f.ty))
+            else:
+                v = path
+            vals.append((own(j, f), v))
+        if named_self:
+            return ('named', dict(vals), nsp(subst_text(upd, '<no-tilde>', src)) if upd else None)
+        return ('tuple', [v for _, v in vals])
+    # Into / IntoExisting
+    live = []
+    for j, f in enumerate(fields):
+        w = member_winner(f.attrs, kind, fallible, cp)
+        a = f.attrs[w] if w is not None else None
+        if a is not None and a.name in GHOST_KINDS:
+            continue
+        member = getattr(a, 'member', None) if a is not None else None
+        expr = getattr(a, 'expr', None) if a is not None else None
+        cast = getattr(a, 'cast', None) if a is not None else None
+        path = '%s.%s' % (src, own(j, f))
+        if expr is not None:
+            v = subst_text(expr, path, src)
+        elif cast is not None:
+            v = nsp('%s as %s' % (path, cast))
+        else:
+            v = path
+        live.append((j, f, member, v))
+    gents = ghosts_entries(item, kind, cp)
+    existing = kind.endswith('existing')
+    if dshape == 'unit':
+        return ('assign', {}) if existing else ('unit',)
+    if dshape == 'named':
+        d = {}
+        for j, f, member, v in live:
+            if member is not None:
+                place = str(member)
+            elif f.name is not None:
+                place = f.name
+            else:
+                raise OutOfScope('tuple field written to a named counterpart without a member name')
+            d[place] = v
+        for nm, e in gents:
+            d[nm] = subst_text(e, '<no-tilde>', src)
+        if existing:
+            return ('assign', {'other.' + k: v for k, v in d.items()})
+        return ('named', d, nsp(subst_text(upd, '<no-tilde>', src)) if upd else None)
+    # tuple-shaped destination: position among the live fields, unless an index is given
+    if any(isinstance(member, int) or (member is not None and str(member).isdigit()) for _, _, member, _ in live):
+        # "the renamed member when one is given": only settled when the given indices are a permutation of the positions
+        idxs = [int(member) if member is not None and str(member).isdigit() else None for _, _, member, _ in live]
+        if gents or None in idxs or sorted(idxs) != list(range(len(live))):
+            raise OutOfScope('index rename under a tuple-shaped destination (indices are not a permutation of the positions)')
+        if existing:
+            return ('assign', {'other.%d' % i: v for i, (_, _, _, v) in zip(idxs, live)})
+        return ('tuple', [v for _, v in sorted(zip(idxs, [v for _, _, _, v in live]))])
+    vals = [v for _, _, _, v in live] + [subst_text(e, '<no-tilde>', src) for _, e in gents]
+    if existing:
+        d = {'other.%d' % i: v for i, (_, _, _, v) in enumerate(live)}
+        for nm, e in gents:
+            d['other.' + nm] = subst_text(e, '<no-tilde>', src)
+        return ('assign', d)
+    return ('tuple', vals)
+
+
+def actual_struct_meaning(imp, fallible, existing):
+    """what an impl's body does, read off its SEM summary; None when it is not of a recognised form"""
+    blk = fn_block(imp)
+    if blk is None:
+        return None
+    stmts = blk[1:]
+    if existing:
+        d = {}
+        for st in stmts:
+            if st[0] == 'stmt' and isinstance(st[1], list) and st[1][0] == 'assign':
+                d[sval(st[1][1])] = sem_text(st[1][2])
+            elif st[0] == 'tail' and sem_text(st[1]) == 'Ok(())' and fallible:
+                continue
+            else:
+                return None
+        return ('assign', d)
+    if len(stmts) != 1 or stmts[0][0] != 'tail':
+        return None
+    e = stmts[0][1]
+    if fallible:
+        if not (isinstance(e, list) and e[0] == 'call' and sval(e[1]) == 'Ok' and len(e) == 3):
+            return None
+        e = e[2]
+    if e[0] == 'struct':
+        d = {}
+        rest = None
+        for x in e[2:]:
+            if x[0] == 'f':
+                if sval(x[1]) in d:
+                    return ('duplicate-field', sval(x[1]))
+                d[sval(x[1])] = sem_text(x[2])
+            elif x[0] == 'rest':
+                rest = sem_text(x[1])
+        return ('named', d, rest)
+    if e[0] == 'call':
+        return ('tuple', [sem_text(x) for x in e[2:]])
+    if e[0] == 'tuple':
+        return ('tuple', [sem_text(x) for x in e[1:]])
+    if e[0] == 'paren':
+        return ('tuple', [sem_text(e[1])])
+    if e[0] == 'raw':
+        return ('unit',)
+    return None
